@@ -305,11 +305,270 @@ func runHSPS(nalu []byte) (r result) {
 	return r
 }
 
+
+func flatI8s(f *flat, name string, l []int8) {
+	f.u(name+".len", uint64(len(l)))
+	for i, x := range l {
+		f.i(fmt.Sprintf("%s[%d]", name, i), int64(x))
+	}
+}
+
+func flatHPPS(p *hevc.PPS) *flat {
+	f := &flat{}
+	f.u("PicParameterSetID", uint64(p.PicParameterSetID))
+	f.u("SeqParameterSetID", uint64(p.SeqParameterSetID))
+	f.b("DependentSliceSegmentsEnabledFlag", p.DependentSliceSegmentsEnabledFlag)
+	f.b("OutputFlagPresentFlag", p.OutputFlagPresentFlag)
+	f.u("NumExtraSliceHeaderBits", uint64(p.NumExtraSliceHeaderBits))
+	f.b("SignDataHidingEnabledFlag", p.SignDataHidingEnabledFlag)
+	f.b("CabacInitPresentFlag", p.CabacInitPresentFlag)
+	f.u("NumRefIdxL0DefaultActiveMinus1", uint64(p.NumRefIdxL0DefaultActiveMinus1))
+	f.u("NumRefIdxL1DefaultActiveMinus1", uint64(p.NumRefIdxL1DefaultActiveMinus1))
+	f.i("InitQpMinus26", int64(p.InitQpMinus26))
+	f.b("ConstrainedIntraPredFlag", p.ConstrainedIntraPredFlag)
+	f.b("TransformSkipEnabledFlag", p.TransformSkipEnabledFlag)
+	f.b("CuQpDeltaEnabledFlag", p.CuQpDeltaEnabledFlag)
+	f.u("DiffCuQpDeltaDepth", uint64(p.DiffCuQpDeltaDepth))
+	f.i("CbQpOffset", int64(p.CbQpOffset))
+	f.i("CrQpOffset", int64(p.CrQpOffset))
+	f.b("SliceChromaQpOffsetsPresentFlag", p.SliceChromaQpOffsetsPresentFlag)
+	f.b("WeightedPredFlag", p.WeightedPredFlag)
+	f.b("WeightedBipredFlag", p.WeightedBipredFlag)
+	f.b("TransquantBypassEnabledFlag", p.TransquantBypassEnabledFlag)
+	f.b("TilesEnabledFlag", p.TilesEnabledFlag)
+	f.b("EntropyCodingSyncEnabledFlag", p.EntropyCodingSyncEnabledFlag)
+	f.u("NumTileColumnsMinus1", uint64(p.NumTileColumnsMinus1))
+	f.u("NumTileRowsMinus1", uint64(p.NumTileRowsMinus1))
+	f.b("UniformSpacingFlag", p.UniformSpacingFlag)
+	flatUints(f, "ColumnWidthMinus1", p.ColumnWidthMinus1)
+	flatUints(f, "RowHeightMinus1", p.RowHeightMinus1)
+	f.b("LoopFilterAcrossTilesEnabledFlag", p.LoopFilterAcrossTilesEnabledFlag)
+	f.b("LoopFilterAcrossSlicesEnabledFlag", p.LoopFilterAcrossSlicesEnabledFlag)
+	f.b("DeblockingFilterControlPresentFlag", p.DeblockingFilterControlPresentFlag)
+	f.b("DeblockingFilterOverrideEnabledFlag", p.DeblockingFilterOverrideEnabledFlag)
+	f.b("DeblockingFilterDisabledFlag", p.DeblockingFilterDisabledFlag)
+	f.i("BetaOffsetDiv2", int64(p.BetaOffsetDiv2))
+	f.i("TcOffsetDiv2", int64(p.TcOffsetDiv2))
+	f.b("ScalingListDataPresentFlag", p.ScalingListDataPresentFlag)
+	f.b("ListsModificationPresentFlag", p.ListsModificationPresentFlag)
+	f.u("Log2ParallelMergeLevelMinus2", uint64(p.Log2ParallelMergeLevelMinus2))
+	f.b("SliceSegmentHeaderExtensionPresentFlag", p.SliceSegmentHeaderExtensionPresentFlag)
+	f.b("ExtensionPresentFlag", p.ExtensionPresentFlag)
+	f.b("RangeExtensionFlag", p.RangeExtensionFlag)
+	if r := p.RangeExtension; r == nil {
+		f.u("RangeExtension.present", 0)
+	} else {
+		f.u("RangeExtension.present", 1)
+		f.u("Range.Log2MaxTransformSkipBlockSizeMinus2", uint64(r.Log2MaxTransformSkipBlockSizeMinus2))
+		f.b("Range.CrossComponentPredictionEnabledFlag", r.CrossComponentPredictionEnabledFlag)
+		f.b("Range.ChromaQpOffsetListEnabledFlag", r.ChromaQpOffsetListEnabledFlag)
+		f.u("Range.DiffCuChromaQpOffsetDepth", uint64(r.DiffCuChromaQpOffsetDepth))
+		f.u("Range.ChromaQpOffsetListLenMinus1", uint64(r.ChromaQpOffsetListLenMinus1))
+		flatI8s(f, "Range.CbQpOffsetList", r.CbQpOffsetList)
+		flatI8s(f, "Range.CrQpOffsetList", r.CrQpOffsetList)
+		f.u("Range.Log2SaoOffsetScaleLuma", uint64(r.Log2SaoOffsetScaleLuma))
+		f.u("Range.Log2SaoOffsetScaleChroma", uint64(r.Log2SaoOffsetScaleChroma))
+	}
+	f.b("MultilayerExtensionFlag", p.MultilayerExtensionFlag)
+	f.b("D3ExtensionFlag", p.D3ExtensionFlag)
+	f.b("SccExtensionFlag", p.SccExtensionFlag)
+	if c := p.SccExtension; c == nil {
+		f.u("SccExtension.present", 0)
+	} else {
+		f.u("SccExtension.present", 1)
+		f.b("Scc.CurrPicRefEnabledFlag", c.CurrPicRefEnabledFlag)
+		f.b("Scc.ResidualAdaptiveColourTransformEnabledFlag", c.ResidualAdaptiveColourTransformEnabledFlag)
+		f.b("Scc.SliceActQpOffsetsPresentFlag", c.SliceActQpOffsetsPresentFlag)
+		f.i("Scc.ActYQpOffsetPlus5", int64(c.ActYQpOffsetPlus5))
+		f.i("Scc.ActCbQpOffsetPlus5", int64(c.ActCbQpOffsetPlus5))
+		f.i("Scc.ActCrQpOffsetPlus3", int64(c.ActCrQpOffsetPlus3))
+		f.b("Scc.PalettePredictorInitializersPresentFlag", c.PalettePredictorInitializersPresentFlag)
+		f.u("Scc.NumPalettePredictorInitializers", uint64(c.NumPalettePredictorInitializers))
+		f.b("Scc.MonochromePaletteFlag", c.MonochromePaletteFlag)
+		f.u("Scc.LumaBitDepthEntryMinus8", uint64(c.LumaBitDepthEntryMinus8))
+		f.u("Scc.ChromaBitDepthEntryMinus8", uint64(c.ChromaBitDepthEntryMinus8))
+		f.u("Scc.PalettePredictorInitializer.len", uint64(len(c.PalettePredictorInitializer)))
+		for i, l := range c.PalettePredictorInitializer {
+			flatUints(f, fmt.Sprintf("Scc.PalettePredictorInitializer[%d]", i), l)
+		}
+	}
+	f.u("Extension4bits", uint64(p.Extension4bits))
+	flatBools(f, "ExtensionDataFlag", p.ExtensionDataFlag)
+	return f
+}
+
+func hevcSpsIDMap(arg string) map[uint32]*hevc.SPS {
+	m := map[uint32]*hevc.SPS{}
+	if arg == "-" || arg == "" {
+		return m
+	}
+	for _, p := range strings.Split(arg, ",") {
+		var id uint32
+		fmt.Sscanf(p, "%d", &id)
+		m[id] = &hevc.SPS{SpsID: byte(id)}
+	}
+	return m
+}
+
+func runHPPS(nalu []byte, arg string) (r result) {
+	p := hx.Try(func() {
+		s, err := hevc.ParsePPSNALUnit(hx.Exact(nalu), hevcSpsIDMap(arg))
+		if err != nil {
+			r = result{outcome: "err", errStr: err.Error()}
+			return
+		}
+		r = result{outcome: "ok", f: flatHPPS(s)}
+	})
+	if p != "" {
+		r = result{outcome: "panic", errStr: p}
+	}
+	return r
+}
+
+func hevcMapsOf(arg string) (map[uint32]*hevc.SPS, map[uint32]*hevc.PPS) {
+	spsMap := map[uint32]*hevc.SPS{}
+	ppsMap := map[uint32]*hevc.PPS{}
+	parts := strings.Split(arg, ";")
+	if len(parts) != 2 {
+		return spsMap, ppsMap
+	}
+	for _, h := range strings.Split(parts[0], ",") {
+		if h == "" {
+			continue
+		}
+		if s, err := hevc.ParseSPSNALUnit(hx.UnHex(h)); err == nil {
+			spsMap[uint32(s.SpsID)] = s
+		}
+	}
+	for _, h := range strings.Split(parts[1], ",") {
+		if h == "" {
+			continue
+		}
+		if p, err := hevc.ParsePPSNALUnit(hx.UnHex(h), spsMap); err == nil {
+			ppsMap[p.PicParameterSetID] = p
+		}
+	}
+	return spsMap, ppsMap
+}
+
+func flatWeights(f *flat, name string, l []hevc.WeightingFactors) {
+	f.u(name+".len", uint64(len(l)))
+	for i, w := range l {
+		n := fmt.Sprintf("%s[%d]", name, i)
+		f.b(n+".LumaWeightFlag", w.LumaWeightFlag)
+		f.b(n+".ChromaWeightFlag", w.ChromaWeightFlag)
+		f.i(n+".DeltaLumaWeight", int64(w.DeltaLumaWeight))
+		f.i(n+".LumaOffset", int64(w.LumaOffset))
+		f.i(n+".DeltaChromaWeight[0]", int64(w.DeltaChromaWeight[0]))
+		f.i(n+".DeltaChromaWeight[1]", int64(w.DeltaChromaWeight[1]))
+		f.i(n+".DeltaChromaOffset[0]", int64(w.DeltaChromaOffset[0]))
+		f.i(n+".DeltaChromaOffset[1]", int64(w.DeltaChromaOffset[1]))
+	}
+}
+
+func flatU8s(f *flat, name string, l []uint8) {
+	f.u(name+".len", uint64(len(l)))
+	for i, x := range l {
+		f.u(fmt.Sprintf("%s[%d]", name, i), uint64(x))
+	}
+}
+
+func flatHSlice(h *hevc.SliceHeader) *flat {
+	f := &flat{}
+	f.u("SliceType", uint64(h.SliceType))
+	f.b("FirstSliceSegmentInPicFlag", h.FirstSliceSegmentInPicFlag)
+	f.b("NoOutputOfPriorPicsFlag", h.NoOutputOfPriorPicsFlag)
+	f.u("PicParameterSetId", uint64(h.PicParameterSetId))
+	f.b("DependentSliceSegmentFlag", h.DependentSliceSegmentFlag)
+	f.u("SegmentAddress", uint64(h.SegmentAddress))
+	f.b("PicOutputFlag", h.PicOutputFlag)
+	f.u("ColourPlaneId", uint64(h.ColourPlaneId))
+	f.u("PicOrderCntLsb", uint64(h.PicOrderCntLsb))
+	f.b("ShortTermRefPicSetSpsFlag", h.ShortTermRefPicSetSpsFlag)
+	flatRPS(f, "ShortTermRefPicSet", &h.ShortTermRefPicSet)
+	f.u("ShortTermRefPicSetIdx", uint64(h.ShortTermRefPicSetIdx))
+	f.u("NumLongTermSps", uint64(h.NumLongTermSps))
+	f.u("NumLongTermPics", uint64(h.NumLongTermPics))
+	f.u("LongTermRefPicSets.len", uint64(len(h.LongTermRefPicSets)))
+	for i := range h.LongTermRefPicSets {
+		flatLT(f, fmt.Sprintf("LongTermRefPicSets[%d]", i), &h.LongTermRefPicSets[i])
+	}
+	f.b("TemporalMvpEnabledFlag", h.TemporalMvpEnabledFlag)
+	f.b("SaoLumaFlag", h.SaoLumaFlag)
+	f.b("SaoChromaFlag", h.SaoChromaFlag)
+	f.b("NumRefIdxActiveOverrideFlag", h.NumRefIdxActiveOverrideFlag)
+	f.u("NumRefIdxL0ActiveMinus1", uint64(h.NumRefIdxL0ActiveMinus1))
+	f.u("NumRefIdxL1ActiveMinus1", uint64(h.NumRefIdxL1ActiveMinus1))
+	if m := h.RefPicListsModification; m == nil {
+		f.u("RefPicListsModification.present", 0)
+	} else {
+		f.u("RefPicListsModification.present", 1)
+		f.b("RefPicListModificationFlagL0", m.RefPicListModificationFlagL0)
+		flatU8s(f, "ListEntryL0", m.ListEntryL0)
+		f.b("RefPicListModificationFlagL1", m.RefPicListModificationFlagL1)
+		flatU8s(f, "ListEntryL1", m.ListEntryL1)
+	}
+	f.b("MvdL1ZeroFlag", h.MvdL1ZeroFlag)
+	f.b("CabacInitFlag", h.CabacInitFlag)
+	f.b("CollocatedFromL0Flag", h.CollocatedFromL0Flag)
+	f.u("CollocatedRefIdx", uint64(h.CollocatedRefIdx))
+	if w := h.PredWeightTable; w == nil {
+		f.u("PredWeightTable.present", 0)
+	} else {
+		f.u("PredWeightTable.present", 1)
+		f.u("LumaLog2WeightDenom", uint64(w.LumaLog2WeightDenom))
+		f.i("DeltaChromaLog2WeightDenom", int64(w.DeltaChromaLog2WeightDenom))
+		flatWeights(f, "WeightsL0", w.WeightsL0)
+		flatWeights(f, "WeightsL1", w.WeightsL1)
+	}
+	f.u("FiveMinusMaxNumMergeCand", uint64(h.FiveMinusMaxNumMergeCand))
+	f.b("UseIntegerMvFlag", h.UseIntegerMvFlag)
+	f.i("QpDelta", int64(h.QpDelta))
+	f.i("CbQpOffset", int64(h.CbQpOffset))
+	f.i("CrQpOffset", int64(h.CrQpOffset))
+	f.i("ActYQpOffset", int64(h.ActYQpOffset))
+	f.i("ActCbQpOffset", int64(h.ActCbQpOffset))
+	f.i("ActCrQpOffset", int64(h.ActCrQpOffset))
+	f.b("CuChromaQpOffsetEnabledFlag", h.CuChromaQpOffsetEnabledFlag)
+	f.b("DeblockingFilterOverrideFlag", h.DeblockingFilterOverrideFlag)
+	f.b("DeblockingFilterDisabledFlag", h.DeblockingFilterDisabledFlag)
+	f.i("BetaOffsetDiv2", int64(h.BetaOffsetDiv2))
+	f.i("TcOffsetDiv2", int64(h.TcOffsetDiv2))
+	f.b("LoopFilterAcrossSlicesEnabledFlag", h.LoopFilterAcrossSlicesEnabledFlag)
+	f.u("NumEntryPointOffsets", uint64(h.NumEntryPointOffsets))
+	f.u("OffsetLenMinus1", uint64(h.OffsetLenMinus1))
+	flatU32s(f, "EntryPointOffsetMinus1", h.EntryPointOffsetMinus1)
+	f.u("SegmentHeaderExtensionLength", uint64(h.SegmentHeaderExtensionLength))
+	flatU8s(f, "SegmentHeaderExtensionDataByte", h.SegmentHeaderExtensionDataByte)
+	f.u("Size", uint64(h.Size))
+	return f
+}
+
+func runHSlice(nalu []byte, arg string) (r result) {
+	p := hx.Try(func() {
+		spsMap, ppsMap := hevcMapsOf(arg)
+		h, err := hevc.ParseSliceHeader(hx.Exact(nalu), spsMap, ppsMap)
+		if err != nil {
+			r = result{outcome: "err", errStr: err.Error()}
+			return
+		}
+		r = result{outcome: "ok", f: flatHSlice(h)}
+	})
+	if p != "" {
+		r = result{outcome: "panic", errStr: p}
+	}
+	return r
+}
+
 // runHevcCase runs the implementation on one HEVC case (kind starts with "H").
 func runHevcCase(c caseLine, nalu []byte) result {
 	switch c.kind {
 	case "HSPS":
 		return runHSPS(nalu)
+	case "HPPS":
+		return runHPPS(nalu, c.arg)
+	case "HSLICE":
+		return runHSlice(nalu, c.arg)
 	}
 	return result{outcome: "badkind"}
 }
@@ -328,7 +587,15 @@ func hevcSiteOf(kind string) string {
 }
 
 // classifyHevc maps the list of mismatching field names of a failing HEVC case to a failure class ("" = default).
-func classifyHevc(c caseLine, bad []string) string { return "" }
+func classifyHevc(c caseLine, bad []string) string {
+	// slice cases generated outside the guard of the known finding carry the id suffix "k": the short-term
+	// RPS in force is inter-predicted, its used_by_curr_pic flags are not derived by the parser, and the
+	// slice reaches ref_pic_lists_modification()
+	if c.kind == "HSLICE" && strings.HasSuffix(c.id, "k") {
+		return "inter-rps-used-flags-not-derived"
+	}
+	return ""
+}
 
 // parameter-set NAL units inside hvcC boxes found by a byte scan (independent of the mp4 package)
 func scanHvcC(data []byte) [][]byte {
@@ -430,7 +697,13 @@ func capturedHevc(repo string) []caseLine {
 		cs = append(cs, caseLine{"HSPS", fmt.Sprintf("ch%d", k), "-", h, "0", "-"})
 		k++
 	}
-	_ = ppss
-	_ = strings.Join
+	var all []string
+	for i := 0; i < 16; i++ {
+		all = append(all, fmt.Sprintf("%d", i))
+	}
+	for _, h := range ppss {
+		cs = append(cs, caseLine{"HPPS", fmt.Sprintf("ch%d", k), strings.Join(all, ","), h, "0", "-"})
+		k++
+	}
 	return cs
 }
